@@ -269,20 +269,21 @@ def legacyRest (l : LocalIo) (alg : LegacyAlg) (centralTk : Tk) : Rest :=
 
 /-- pairing state after the Pairing Random of an LESC exchange -/
 inductive AfterRandom where
-  | exchanged | wait | success | failed
+  | exchanged | wait | failed
 deriving DecidableEq, Repr
 
 -- src: security_manager.hpp: lesc_handle_pairing_random: only numeric_comparison involves the
 --      user: sm_pairing_numeric_compare_output, then sm_pairing_request_yes_no
 --      (pairing_no_input: returns true, state unchanged; pairing_yes_no: wait_for_user_response,
---      then Obj.sm_pairing_yes_no which may answer at once; pairing_keyboard: does not compile)
+--      then Obj.sm_pairing_yes_no which may answer at once: yes_no_response( true ) without a verified
+--      DHKey check leads back to lesc_pairing_random_exchanged; pairing_keyboard: does not compile)
 def lescAfterRandom (l : LocalIo) (alg : LescAlg) (u : User) : AfterRandom × Bool × Bool :=
   if alg = .numericComparison then
     let shown := l.out == .numeric
     match l.inp with
     | .yesNo =>
         match u with
-        | .yesAtOnce => (.success, true, shown)
+        | .yesAtOnce => (.exchanged, true, shown)
         | .noAtOnce  => (.failed, true, shown)
         | _          => (.wait, true, shown)
     | _ => (.exchanged, false, shown)
@@ -290,15 +291,16 @@ def lescAfterRandom (l : LocalIo) (alg : LescAlg) (u : User) : AfterRandom × Bo
 
 -- src: security_manager.hpp: lesc_handle_pairing_public_key, lesc_l2cap_output (Cb = f4( PKb, PKa,
 --      Nb, 0 ) for every algorithm), lesc_handle_pairing_random, lesc_handle_pairing_dhkey_check
---      (Ea checked with r = 0 for every algorithm; dropped unchecked in user_response_wait),
---      lesc_l2cap_output in user_response_success / user_response_failed.
+--      (Ea checked with r = 0 for every algorithm; in user_response_wait it is checked as well and
+--      remembered: user_response_wait_dhkey_verified), yes_no_response, lesc_l2cap_output in
+--      user_response_success (sends Eb) / user_response_failed.
 --      The central is honest (valid key, matching Ea), so no check fails for cryptographic reasons.
 def lescRest (l : LocalIo) (alg : LescAlg) (u : User) : Rest :=
   match lescAfterRandom l alg u with
   | (.failed, asked, shown) =>
       -- Pairing Random answered with Pairing Failed passkey_entry_failed (1)
       { done := false, asked := asked, shown := shown, kbd := false, fail := .random 1 }
-  | (.exchanged, asked, shown) | (.success, asked, shown) =>
+  | (.exchanged, asked, shown) =>
       { done := true, asked := asked, shown := shown, kbd := false, fail := .none }
   | (.wait, asked, shown) =>
       match u with
@@ -316,13 +318,13 @@ def legacyStatus (alg : LegacyAlg) (done : Bool) : Status :=
   else if alg = .justWorks then .unauthenticatedKey else .authenticatedKey
 
 -- src: security_connection_data.hpp: lesc_security_connection_data::local_device_pairing_status
---      (LESC only manager) and security_connection_data::lesc_pairing_completed +
+--      (LESC only manager: authenticated_key after numeric comparison) and security_connection_data::lesc_pairing_completed +
 --      local_device_pairing_status (combined manager)
 def lescStatus (m : Mgr) (alg : LescAlg) (done : Bool) : Status :=
   if !done then .noKey
   else match m with
     | .combined => if alg = .justWorks then .unauthenticatedKey else .authenticatedKey
-    | _ => .unauthenticatedKey
+    | _ => if alg = .numericComparison then .authenticatedKey else .unauthenticatedKey
 
 /-- one complete pairing attempt: what was selected, how it went, what is reported afterwards -/
 structure Outcome where
